@@ -14,6 +14,7 @@ ALL = [json.loads(l)["id"] for l in open(os.path.join(VERIF, "properties.jsonl")
 
 hooks = subprocess.run(["git", "-C", "/repo", "log", "--format=%H", "--grep=^verif hooks"], capture_output=True,
                        text=True).stdout.split()
+fixes = subprocess.run(["git", "-C", "/repo", "log", "--format=%h %s", "--grep=^fix:"], capture_output=True, text=True).stdout.strip().split("\n")
 
 TECH = {
     "kani": "bounded model checking of the compiled crux code with Kani 0.68 / CBMC 6.11 (SAT, CaDiCaL): #[kani::proof] harnesses over symbolic inputs, unwinding assertions on, counterexamples replayed natively",
@@ -52,9 +53,9 @@ manifest = {
     "version": 1,
     "setup_cmd": "./setup.sh",
     "hooks": {
-        "guard": "cargo feature crux_verif of crux_core (off by default)",
-        "enable": "harness crates under /verif/kani depend on /repo/crux_core by path with features = [\"crux_verif\"]",
-        "baseline_off_cmd": "cd /repo && RUSTUP_TOOLCHAIN=stable-x86_64-unknown-linux-gnu cargo test --workspace --no-fail-fast --offline",
+        "guard": "cargo feature `crux_verif` of crux_core and of crux_kv (off by default; cfg(feature = \"crux_verif\"))",
+        "enable": "the harness crates under /verif/kani depend on /repo/crux_core and /repo/crux_kv by path with features = [\"crux_verif\"]",
+        "baseline_off_cmd": "cd /repo && RUSTUP_TOOLCHAIN=stable-x86_64-unknown-linux-gnu cargo nextest run --workspace --no-fail-fast --tool-config-file pb:/w/lib/nextest.toml --profile pb --test-threads 8 --offline",
         "source_commits": hooks,
         "add_only": True,
     },
@@ -66,7 +67,7 @@ manifest = {
     ],
     "checks": checks,
     "not_applicable": na,
-    "notes": "Exit 2 from a check means inconclusive (timeout/OOM/encoder gap/non-reproducing counterexample) and is never a pass. Known findings: /verif/known_findings.txt. See DESIGN.md.",
+    "notes": "Unguarded repairs of genuine defects in /repo (fix: commits): " + " | ".join(fixes) + ". Exit 2 from a check means inconclusive (timeout/OOM/encoder gap/non-reproducing counterexample) and is never a pass. Known findings: /verif/known_findings.txt. See DESIGN.md.",
 }
 json.dump(manifest, open(os.path.join(VERIF, "MANIFEST.json"), "w"), indent=1)
 print("checks:", [c["property_id"] for c in checks], "not_applicable:", [n["property_id"] for n in na])
